@@ -9,6 +9,7 @@ from vf.simk.world import World, CLK_TCK
 
 ID = "C04"
 LEVEL = "model_checking"
+ALT_MOUNT = True
 _CFG = None
 ATTRS = {"none": None, "np": ["name", "ppid"], "n": ["name"]}
 
@@ -505,7 +506,7 @@ def f_part(ctx):
 def run(ctx):
     global _CFG
     _CFG = Cfg(ctx.seed, ctx.thorough)
-    depth = 7 if ctx.thorough else 6
+    depth = (7 if ctx.thorough else 6) - (2 if ctx.alt else 0)
     roots = [[["spawn", "A"], ["iter", "none"], ["die", "A"], ["spawn", "A"]],      # a cached entry that stands for a previous owner
              # an iteration with attrs under way (pids listed, first one yielded) over a cache that already holds A
              [["spawn", "A"], ["iter", "np"], ["gstart", "np"], ["gnext", 0]]]
@@ -513,7 +514,7 @@ def run(ctx):
     nf, flabels, fviols, fsamples = f_part(ctx)
     res["violations"] = res["violations"] + fviols
     from vf.checks import c04s
-    sres = c04s.run_s(ctx)
+    sres = c04s.run_s(ctx) if not ctx.alt else {"violations": [], "coverage": {"executions": 0, "transitions": 0}}
     res["violations"] = res["violations"] + sres["violations"]
     res["states"] += sres["coverage"]["executions"]
     res["transitions"] += sres["coverage"]["transitions"]
